@@ -69,39 +69,29 @@ Proof. exact shuffle_partition. Qed.
 Print Assumptions C12_shuffle_partition.
 
 (* ================================================================= reassembly *)
-(* EXACT behaviour of _map's loop with out= (every input): the non-None results are written back to back from `start`,
-   i.e. chunk k lands at offset = total length of the non-None results before it *)
-Theorem C12_reassembly_offsets_exact : forall (B : Type) unbound (items : list (option (list B))) out start,
-  start + List.length (concat (somes items)) <= List.length out ->
-  (unbound = true -> Forall len1 items) ->
-  reassemble_out unbound out start items
-  = Ok (firstn start out ++ concat (somes items) ++ skipn (start + List.length (concat (somes items))) out).
-Proof. intro B. exact (@reassemble_compact B). Qed.
-Print Assumptions C12_reassembly_offsets_exact.
+(* the property as stated, for ALL result lists (None results anywhere): with out= (regular, or shared / memmap written
+   by the workers) chunk k of the results is written at slice k of out, a None result leaves its slice as it was.
+   (Before fix S1 / C12-a this was false of the faithful model: `start` was not advanced for None items.) *)
+Theorem C12_reassembly_offsets : forall (B : Type) n bs (items : list (option (list B))) out,
+  tiles 0 n bs -> List.length out = n ->
+  Forall2 (fun ab it => match it with Some rows => List.length rows = snd ab - fst ab | None => True end) bs items ->
+  reassemble_out out bs items = Ok (seq_out out bs items) /\ shared_out out bs items = Ok (seq_out out bs items).
+Proof.
+  intros B n bs items out Ht Hn HF. apply (reassembly_offsets bs items out 0 n Ht); [rewrite Hn; apply le_n|exact HF].
+Qed.
+Print Assumptions C12_reassembly_offsets.
 
-(* the property as stated: with out=, chunk k is written at its own slice *)
-Definition C12_reassembly_offsets_full_statement : Prop :=
-  forall (B : Type) n bs (items : list (option (list B))) out,
-    tiles 0 n bs -> List.length out = n -> List.length items = List.length bs ->
-    Forall2 (fun ab it => match it with Some rows => List.length rows = snd ab - fst ab | None => True end) bs items ->
-    reassemble_out false out 0 items = Ok (seq_out out bs items).
-
-(* proved when the None results (if any) come last ... *)
-Theorem C12_reassembly_offsets_partial : forall (B : Type) unbound n m bs1 bs2 (items1 : list (option (list B))) out,
-  tiles 0 m bs1 -> tiles m n bs2 -> List.length out = n -> Forall2 fits bs1 items1 ->
-  (unbound = true -> Forall len1 items1) ->
-  reassemble_out unbound out 0 (items1 ++ repeat None (List.length bs2))
-  = Ok (seq_out out (bs1 ++ bs2) (items1 ++ repeat None (List.length bs2))).
-Proof. intro B. exact (@reassembly_offsets_partial B). Qed.
-Print Assumptions C12_reassembly_offsets_partial.
-
-(* ... and false as soon as a None precedes a result (finding S1: `start` is not advanced for None items) *)
-Theorem C12_reassembly_offsets_refuted :
-  exists (out : list Z) bs items,
-    tiles 0 (List.length out) bs /\ List.length items = List.length bs /\
-    reassemble_out false out 0 items <> Ok (seq_out out bs items).
-Proof. exact reassembly_offsets_refuted. Qed.
-Print Assumptions C12_reassembly_offsets_refuted.
+(* map with ANY function whose non-None results have the length of their chunk: both out= kinds hold the sequential form *)
+Theorem C12_map_out_sequential : forall (A B : Type) (f : list A -> option (list B)) (rows : list A) out cs nc nw gen l,
+  List.length rows > 0 -> List.length out = List.length rows ->
+  split_pieces (List.length rows) cs nc nw gen false = Ok l ->
+  (forall ab, In ab (map (bounds (List.length rows)) l) -> fitsn ab (f (take rows ab))) ->
+  let bs := map (bounds (List.length rows)) l in
+  let items := trusted_imap (fun ab => f (take rows ab)) bs in
+  map_model f rows ORegular out cs nc nw gen = Ok (RetOut (seq_out out bs items)) /\
+  map_model f rows OShared out cs nc nw gen = Ok (RetNoneOut (seq_out out bs items)).
+Proof. intros A B. exact (@map_out_sequential A B). Qed.
+Print Assumptions C12_map_out_sequential.
 
 (* map with a row-wise function = the function applied to the whole, for every chunking and every out= kind
    (imap in submission order is the trusted part) *)
@@ -113,7 +103,7 @@ Theorem C12_map_eq_whole : forall (A B : Type) (g : A -> B) (rows : list A) out 
      map_model (fun r => Some (map g r)) rows OShared out cs nc nw gen = Ok (RetNoneOut (map g rows))).
 Proof.
   intros A B g rows out cs nc nw gen l Hn Hs. split; [eapply map_rowwise_cat; eassumption|].
-  intro Ho. split; [eapply map_rowwise_out; eassumption|eapply map_rowwise_shared; eassumption].
+  intro Ho. eapply map_rowwise_out; eassumption.
 Qed.
 Print Assumptions C12_map_eq_whole.
 
@@ -134,51 +124,15 @@ Theorem C12_mt_apply_order_free : forall fn o d con self others out pi1 pi2,
 Proof. exact mt_apply_order_free. Qed.
 Print Assumptions C12_mt_apply_order_free.
 
-(* ... it equals the single-threaded _apply_nest for every completion order in which all tasks complete, when
-   out= is not given, filter_empty is a boolean, and default= is not given ... *)
-Theorem C12_mt_eq_st : forall fn o b con self others pi,
-  o_fe o = Some b ->
+(* ... and for EVERY option combination (inplace, out=, filter_empty in {True, False, None}, default=, call_on_nested,
+   named / nested_keys, any other operands) it equals the single-threaded _apply_nest, result or exception, for every
+   completion order in which all tasks complete.
+   (Before fixes S16 / S15 / C12-b this was false of the faithful model for out=, default= and filter_empty=None.) *)
+Theorem C12_mt_eq_st : forall fn o d con self others out pi,
   (forall id, id < ntasks con self -> In id pi) ->
-  mt_apply fn o NoDefault con self others None pi = st_apply fn o NoDefault con self others None.
+  mt_apply fn o d con self others out pi = st_apply fn o d con self others out.
 Proof. exact mt_eq_st_all_complete. Qed.
 Print Assumptions C12_mt_eq_st.
-
-(* ... or default= is given but no entry is missing from the other operands *)
-Theorem C12_mt_eq_st_default_covered : forall fn o b con self others pi,
-  o_fe o = Some b -> covers others self ->
-  (forall id, id < ntasks con self -> In id pi) ->
-  mt_apply fn o Default con self others None pi = st_apply fn o Default con self others None.
-Proof. exact mt_eq_st_default_covered. Qed.
-Print Assumptions C12_mt_eq_st_default_covered.
-
-(* the full statement is false of the faithful model: findings S16 (out=), S15 (default=), C12-b (filter_empty=None) *)
-Definition C12_mt_eq_st_full_statement : Prop :=
-  forall fn o d con self others out pi,
-    (forall id, id < ntasks con self -> In id pi) ->
-    mt_apply fn o d con self others out pi = st_apply fn o d con self others out.
-
-Theorem C12_mt_out_nested_refuted :
-  exists fn o self out pi,
-    (forall id, id < ntasks false self -> In id pi) /\
-    mt_apply fn o NoDefault false self [] (Some out) pi = OCyclic /\
-    exists r, st_apply fn o NoDefault false self [] (Some out) = ORet (Some r).
-Proof. exact mt_out_nested_refuted. Qed.
-Print Assumptions C12_mt_out_nested_refuted.
-
-Theorem C12_mt_default_nested_refuted :
-  exists fn o self other pi,
-    (forall id, id < ntasks false self -> In id pi) /\
-    mt_apply fn o Default false self [other] None pi = ORaise AKey /\
-    exists r, st_apply fn o Default false self [other] None = ORet (Some r).
-Proof. exact mt_default_nested_refuted. Qed.
-Print Assumptions C12_mt_default_nested_refuted.
-
-Theorem C12_mt_filter_empty_none_refuted :
-  exists fn o self pi,
-    (forall id, id < ntasks false self -> In id pi) /\
-    mt_apply fn o NoDefault false self [] None pi <> st_apply fn o NoDefault false self [] None.
-Proof. exact mt_filter_empty_none_refuted. Qed.
-Print Assumptions C12_mt_filter_empty_none_refuted.
 
 (* ================================================================= multithreaded writers *)
 (* memmap_ / memmap / memmap_like: every completion order of the writer tasks leaves the same value under every key *)
@@ -219,13 +173,10 @@ Example C12_ex_partition :
 Proof. repeat split; try reflexivity. cbn. auto. Qed.
 
 Example C12_ex_reassembly :
-  reassemble_out false [0; 0; 0; 0; 0]%Z 0 [Some [1; 2]%Z; Some [3; 4]%Z; None] = Ok [1; 2; 3; 4; 0]%Z
-  /\ tiles 0 4 [(0, 2); (2, 4)] /\ tiles 4 5 [(4, 5)]
-  /\ Forall2 fits [(0, 2); (2, 4)] [Some [1; 2]%Z; Some [3; 4]%Z].
-Proof.
-  split; [reflexivity|]. split; [cbn; auto with arith|]. split; [cbn; auto with arith|].
-  repeat constructor; eexists; split; reflexivity.
-Qed.
+  reassemble_out [0; 0; 0; 0; 0]%Z [(0, 2); (2, 4); (4, 5)] [None; Some [3; 4]%Z; Some [5]%Z] = Ok [0; 0; 3; 4; 5]%Z
+  /\ seq_out [0; 0; 0; 0; 0]%Z [(0, 2); (2, 4); (4, 5)] [None; Some [3; 4]%Z; Some [5]%Z] = [0; 0; 3; 4; 5]%Z
+  /\ tiles 0 5 [(0, 2); (2, 4); (4, 5)].
+Proof. split; [reflexivity|]. split; [reflexivity|]. cbn. repeat split; auto with arith. Qed.
 
 From Coq Require Import String.
 Open Scope string_scope.
@@ -235,12 +186,14 @@ Example C12_ex_threads :
   ntasks false self = 4
   /\ (forall id, id < 4 -> In id [3; 1; 0; 2])
   /\ mt_apply inc_fn o NoDefault false self [] None [3; 1; 0; 2] = st_apply inc_fn o NoDefault false self [] None
+  /\ mt_apply inc_fn o Default false self [FCons "n" (Node FNil) FNil] (Some self) [3; 1; 0; 2]
+     = ORet (Some (FCons "a" (Leaf 2) (FCons "n" (Node (FCons "c" (Leaf 3) (FCons "d" (Leaf 4) FNil))) (FCons "b" (Leaf 5) FNil))))
   /\ st_apply inc_fn o NoDefault false self [] None
      = ORet (Some (FCons "a" (Leaf 2) (FCons "n" (Node (FCons "c" (Leaf 3) (FCons "d" (Leaf 4) FNil))) (FCons "b" (Leaf 5) FNil)))).
 Proof.
   cbn zeta. split; [reflexivity|]. split.
   - intros id H. do 4 (destruct id as [|id]; [cbn; tauto|]). lia.
-  - split; vm_compute; reflexivity.
+  - repeat split; vm_compute; reflexivity.
 Qed.
 
 Example C12_ex_consolidate :
